@@ -16,14 +16,18 @@ MANIFEST = dict(
          'scanner refinement + rescan lemma), hence the FKM detector is (fkm_chunked, unbounded); the FOUR-point detector is chunk independent '
          'for every signal and every partition (fourpoint_chunked, unbounded: refinement of the Cython loop to an item-level stack machine, '
          'irreducible residual, provisional-sample monotonicity, scanner geometry); chunk_local_index addresses the right '
-         'sample and the recorder chunk list is the chunk lengths (unbounded); THREE-point chunk independence is proved bounded '
-         '(all signals over {0..3} up to length 7, every partition, vm_compute + forallb_forall) with the unbounded statement kept as a '
-         'Definition; the model is tied to the code by a correspondence check on every observable '
+         'sample and the recorder chunk list is the chunk lengths (unbounded); the THREE-point detector is chunk independent for every '
+         'signal and every partition as well (threepoint_chunked, unbounded: refinement of the Cython loop to an item-level machine keeping '
+         'the two front values and the number of stack entries below each front; inductive shape invariant "strictly diverging part topped '
+         'by the two extremes, then strictly converging part"; argmax/argmin over a stored residual of that shape recompute the fronts of '
+         'the one-piece run; re-pushing the residual closes nothing; provisional-sample monotonicity); the bounded sweeps '
+         '(all signals over {0..3} up to length 7, every partition, vm_compute + forallb_forall) are kept as an independent evaluation of the '
+         'model; the model is tied to the code by a correspondence check on every observable '
          '(cycle values, cycle indices, residuals, residual_index, chunks).',
     note=common.TB_NOTE + 'all C01 theorems are closed under the global context (no axioms). Model is hand-written: the correspondence harness '
          '(generators, Coq literals) is trusted; signals are integer valued in the model (exact on doubles), float rounding is covered only '
          'by the implementation-only chunked-vs-whole relation; the compiled kernel is rebuilt from extension.pyx with -O1.',
-    technique='Coq proof (refinement, invariants, induction; bounded vm_compute only for the 3-point detector) over hand-written Gallina model + vm_compute correspondence',
+    technique='Coq proof (refinement, invariants, induction; all three detectors unbounded) over hand-written Gallina model + vm_compute correspondence',
     design='6/C01')
 
 
